@@ -760,16 +760,23 @@ def qOpenWeights : List OpenPos → Res (List (Nat × Nat × Nat))
     let r ← qOpenWeights t
     pure ((p.dur, p.amt, w) :: r)
 
+/-- `ADDRESS_WEIGHT_HISTORY.prefix(address).range(..).collect::<BTreeMap>()` as the share query builds it -/
+def mineOf (wh : List ((Addr × Nat) × Nat)) (u : Addr) : List (Nat × Nat) :=
+  (wh.filter (fun p => p.1.1 = u)).map (fun p => (p.1.2, p.2))
+
+/-- the weight the share query reads: the entry with the largest epoch `≤ E` of the address's map
+    (only entries for epochs up to the current one are in effect), `0` if there is none -/
+def seenAt (wh : List ((Addr × Nat) × Nat)) (u : Addr) (E : Nat) : Nat :=
+  match maxKeyLE (mineOf wh u) E with
+  | some (_, w) => w
+  | none => 0
+
 /-- `QueryMsg::CurrentEpochRewardsShare`: `(address_weight, global_weight, share atomics)` -/
 def qShare (s : St) (u : Addr) (epoch : Nat) : Res (Nat × Nat × Nat) :=
   match earliest s.whist u with
   | none => .ok (0, aget s.snap epoch, 0)
   | some _ =>
-    let mine := (s.whist.filter (fun p => p.1.1 = u)).map (fun p => (p.1.2, p.2))
-    -- only entries for epochs up to the current one are in effect; none → weight 0
-    let seen := match maxKeyLE mine epoch with
-      | some (_, w) => w
-      | none => 0
+    let seen := seenAt s.whist u epoch
     match alook s.snap epoch with
     | none => .err
     | some g =>
